@@ -1328,6 +1328,28 @@ class Canon(object):
                 out.extend(self.expand([ast.copy_location(ast.If(test=s.value.test, body=[a], orelse=[b]), s)]))
                 self.hit('N17')
                 continue
+            # N17c  x = {k1: v1, k2: (A if c else B)} / [.., (A if c else B), ..]  ->  if c: x = {.., k2: A} else: x = {.., k2: B}
+            #       (one conditional entry; what is evaluated before the condition is call-free, and so is the condition)
+            if isinstance(s, (ast.Assign, ast.Return)) and isinstance(s.value, (ast.Dict, ast.List, ast.Tuple)):
+                disp = s.value
+                seq = list(disp.values) if isinstance(disp, ast.Dict) else list(disp.elts)
+                idx = [i for i, e_ in enumerate(seq) if isinstance(e_, ast.IfExp)]
+                keys_ok = not isinstance(disp, ast.Dict) or all(k_ is not None and _pure(k_) for k_ in disp.keys)
+                if len(idx) == 1 and keys_ok and all(_pure(e_) for e_ in seq[:idx[0]]) and _pure(seq[idx[0]].test) \
+                        and (not isinstance(s, ast.Assign) or all(_pure(t_) for t_ in s.targets)):
+                    ie = seq[idx[0]]
+
+                    def variant(val):
+                        ns = copy.deepcopy(s)
+                        d2 = ns.value
+                        if isinstance(d2, ast.Dict):
+                            d2.values[idx[0]] = copy.deepcopy(val)
+                        else:
+                            d2.elts[idx[0]] = copy.deepcopy(val)
+                        return ns
+                    out.extend(self.expand([ast.copy_location(ast.If(test=copy.deepcopy(ie.test), body=[variant(ie.body)], orelse=[variant(ie.orelse)]), s)]))
+                    self.hit('N17')
+                    continue
             if isinstance(s, ast.Expr) and isinstance(s.value, ast.Call) and _pure(s.value.func) and not s.value.keywords:
                 k = s.value
                 idx = [i for i, a_ in enumerate(k.args) if isinstance(a_, ast.IfExp)]
@@ -1681,6 +1703,21 @@ class Canon(object):
                             return n
                     s = _R().visit(s)
                     self.hit('N44')
+            res.append(s)
+        out = res
+        # N41b  t = <call> ; [x =] await t   ->   [x =] await <call>        (t made up by the inliner, read only there)
+        res = []
+        for s in out:
+            if res and self.fns and isinstance(res[-1], ast.Assign) and len(res[-1].targets) == 1 and isinstance(res[-1].targets[0], ast.Name) \
+                    and isinstance(res[-1].value, ast.Call) and getattr(res[-1], '_inl', False) \
+                    and isinstance(s, (ast.Expr, ast.Assign, ast.Return)) and isinstance(s.value, ast.Await) and isinstance(s.value.value, ast.Name) \
+                    and s.value.value.id == res[-1].targets[0].id:
+                t = res[-1].targets[0].id
+                uses = [n for n in ast.walk(self.fns[-1]) if isinstance(n, ast.Name) and n.id == t]
+                if len(uses) == 2:
+                    a = res.pop()
+                    s.value.value = a.value
+                    self.hit('N41')
             res.append(s)
         out = res
         # N5
